@@ -25,7 +25,8 @@ RULE = ("Host H (real Zeroconf: 1..2 registered services, an active browser, a s
         "PTR within 1.4 s, canary 2 (a second real instance announcing a brand-new service) reaches H's browser as Added and canary 3 "
         "(a service announced, withdrawn by a goodbye alone or mixed with new/refreshed/flush records in one datagram, and "
         "announced again) is reported Added both times, and canary 4 (the browser still sends its 75 % refresh query for a pointer "
-        "learned after the stream) shows the query scheduler alive "
+        "learned after the stream) shows the query scheduler alive; canary 5: a query answered earlier and repeated byte for byte "
+        "right after an undecodable datagram is answered again "
         "within 1.5 s. Distinct = (generator, source class, delivery, handler reached, outcome) classes.")
 ASSUMPTIONS = ["canary names are unique per run so that earlier fuzz traffic cannot have pre-empted them"]
 
@@ -36,7 +37,8 @@ T2 = "_ipp._tcp.local."
 def floors(tier):
     q = tier == "quick"
     return {"c15.no_escape": 80000 if q else 10000000, "c15.oversize_ignored": 3000 if q else 400000, "c15.canary_query": 1000 if q else 100000, "c15.canary_browse": 1000 if q else 100000,
-            "c15.canary_reannounce": 1000 if q else 100000, "c15.canary_refresh": 1000 if q else 100000}
+            "c15.canary_reannounce": 1000 if q else 100000, "c15.canary_refresh": 1000 if q else 100000,
+            "c15.canary_repeat_after_junk": 1000 if q else 100000}
 
 
 def plan(tier, seed):
@@ -295,6 +297,43 @@ def run_stream(res: Result, seed: int) -> None:
             elif not again:
                 viol("c15.canary_reannounce", "reannouncement_not_delivered", "%s was announced, withdrawn (%s) and announced again 1.1 s later; the browser of H "
                      "did not report it again (cached PTRs for the type: %r)" % (rname, shape, sorted(r.alias for r in zc.cache.entries_with_name(T2) if hasattr(r, "alias"))), shape=shape)
+            # ---- canary 5: a valid datagram repeated after junk is processed again (the duplicate-datagram memory must describe
+            #      the datagram that really came last, whatever it was)
+            res.mon("c15.canary_repeat_after_junk")
+            q5 = R.build_query([(T1, 12, False)], id_=0xC5C5)
+            sim.net.inject_now(host, q5, ("10.0.0.202", 5353))
+            await sim.sleep_ms(2600)          # answered, and beyond both the duplicate window and the one-second protection
+            junk = rng.choice([bytes(rng.randrange(256) for _ in range(7)), q5[:14], q5[:12] + b"\xc0"])
+            sim.net.inject_now(host, junk, ("10.0.0.203", rng.choice([5353, 40123])))
+            await sim.sleep_ms(rng.choice([0, 200, 900]))
+            mark = len(sim.net.trace)
+            sim.net.inject_now(host, q5, ("10.0.0.202", 5353))
+            await sim.sleep_ms(1400)
+            answered = set()
+            for e in sim.net.trace[mark:]:
+                if e["host"] != "H" or not e["mcast"]:
+                    continue
+                m, _ = wire.try_parse(e["data"], strict=True)
+                if m is not None and m.is_response:
+                    answered.update(R.ident_of_wire(r) for r in m.answers if r.ttl > 0)
+            if not {s.ptr() for s in svcs} <= answered:
+                viol("c15.canary_query", "repeated_query_after_junk_unanswered", "a PTR query answered 2.6 s earlier, repeated byte for byte after a %d-byte undecodable "
+                     "datagram, got no answer" % len(junk))
+            # ... and the same for a periodic re-announcement: identical bytes 100 s apart, the second one right after junk, must
+            # refresh the records (they would otherwise expire 120 s after the first)
+            yname = "periodic-%d.%s" % (seed & 0xFFFF, T2)
+            yann = R.build_response([(("PTR", T2, (yname,)), 4500, False), (("SRV", yname, (0, 0, 7, "periodic-host.local.")), 120, True),
+                                     (("A", "periodic-host.local.", (b"\x0a\x00\x00\x0b",)), 120, True)], id_=0)
+            sim.net.inject_now(host, yann, ("10.0.0.204", 5353))
+            await sim.sleep_ms(100_000)
+            sim.net.inject_now(host, bytes(rng.randrange(256) for _ in range(9)), ("10.0.0.203", 5353))
+            await sim.sleep_ms(200)
+            sim.net.inject_now(host, yann, ("10.0.0.204", 5353))
+            await sim.sleep_ms(30_000)
+            srv_alive = any(not r.is_expired(sim.now_ms()) for r in zc.cache.get_all_by_details(yname, 33, 1))
+            if not srv_alive:
+                viol("c15.canary_query", "repeated_announcement_after_junk_ignored", "an announcement repeated byte for byte 100 s later, right after a 9-byte "
+                     "undecodable datagram, did not refresh the records: the SRV (TTL 120) is gone 130 s after the first copy")
             # ---- canary 4: the browser's query scheduler is still running: the pointer re-announced by canary 3 (TTL raised to the
             #      1125 s floor) must be asked for again at about 75 % of that TTL
             res.mon("c15.canary_refresh")
